@@ -452,4 +452,247 @@ theorem dropLast_eq_take (l : List Prov) : l.dropLast = l.take (l.length - 1) :=
   simp [List.dropLast_eq_take]
 
 
+
+/-- Unbounded announcement: replace in place if present, else sorted insertion. -/
+def insProv (ps : List Prov) (p : Prov) : List Prov :=
+  match search p.dist ps with
+  | .ok i => ps.set i p
+  | .error i => ps.insertIdx i p
+
+theorem lowerBound_take_lt {d : Nat} : ∀ {ps : List Prov} {m : Nat}, lowerBound d ps < m →
+    lowerBound d (ps.take m) = lowerBound d ps
+  | [], m, _ => by simp [lowerBound]
+  | x :: xs, 0, h => by omega
+  | x :: xs, m+1, h => by
+    rw [List.take_succ_cons, lowerBound_cons, lowerBound_cons] at *
+    split
+    · rename_i hx
+      rw [if_pos hx] at h
+      rw [lowerBound_take_lt (by omega)]
+    · rfl
+
+theorem lowerBound_take_ge {d : Nat} : ∀ {ps : List Prov} {m : Nat}, m ≤ lowerBound d ps →
+    lowerBound d (ps.take m) = m
+  | ps, 0, _ => by simp [lowerBound]
+  | [], m+1, h => by simp [lowerBound] at h
+  | x :: xs, m+1, h => by
+    rw [lowerBound_cons] at h
+    rw [List.take_succ_cons, lowerBound_cons]
+    split
+    · rename_i hx
+      rw [if_pos hx] at h
+      rw [lowerBound_take_ge (by omega)]
+    · rename_i hx
+      rw [if_neg hx] at h; omega
+
+theorem getElem?_take_lt {α : Type} {l : List α} {m i : Nat} (h : i < m) : (l.take m)[i]? = l[i]? := by
+  simp [h]
+
+theorem take_insertIdx_ge {α : Type} {l : List α} {m i : Nat} {a : α} (h : m ≤ i) (hi : i ≤ l.length) :
+    (l.insertIdx i a).take m = l.take m := by
+  induction l generalizing m i with
+  | nil =>
+    have : i = 0 := by simpa using hi
+    subst this
+    have : m = 0 := by omega
+    subst this; simp
+  | cons x xs ih =>
+    cases i with
+    | zero => have : m = 0 := by omega
+              subst this; simp
+    | succ i =>
+      cases m with
+      | zero => simp
+      | succ m =>
+        simp only [List.insertIdx_succ_cons, List.take_succ_cons]
+        rw [ih (by omega) (by simpa using hi)]
+
+theorem take_insertIdx_lt {α : Type} {l : List α} {m i : Nat} {a : α} (h : i < m) (hi : i ≤ l.length) :
+    (l.insertIdx i a).take m = ((l.take (m - 1)).insertIdx i a) := by
+  induction l generalizing m i with
+  | nil =>
+    have : i = 0 := by simpa using hi
+    subst this
+    cases m with
+    | zero => omega
+    | succ m => simp
+  | cons x xs ih =>
+    cases m with
+    | zero => omega
+    | succ m =>
+      cases i with
+      | zero => simp
+      | succ i =>
+        have hm : 0 < m := by omega
+        obtain ⟨m', rfl⟩ : ∃ m', m = m' + 1 := ⟨m - 1, by omega⟩
+        simp only [List.insertIdx_succ_cons, List.take_succ_cons, Nat.add_sub_cancel]
+        rw [ih (by omega) (by simpa using hi)]
+        simp
+
+theorem take_set_lt {α : Type} {l : List α} {m i : Nat} {a : α} :
+    (l.set i a).take m = (l.take m).set i a := by
+  simp [List.take_set]
+
+theorem take_set_ge {α : Type} {l : List α} {m i : Nat} {a : α} (h : m ≤ i) :
+    (l.set i a).take m = l.take m := by
+  rw [List.take_set]
+  apply List.set_eq_of_length_le
+  simp; omega
+
+/-- One bounded announcement on the truncated list = truncation of the unbounded announcement. -/
+theorem putProvList_take (m : Nat) (ps : List Prov) (p : Prov) (hs : Sorted ps) :
+    (putProvList m (ps.take m) p).1 = (insProv ps p).take m := by
+  have hle := lowerBound_le p.dist ps
+  unfold insProv
+  cases hsr : search p.dist ps with
+  | ok i =>
+    obtain ⟨q, hq, hd, hi⟩ := search_ok hsr
+    simp only
+    by_cases him : i < m
+    · have hq' : (ps.take m)[i]? = some q := by rw [getElem?_take_lt him]; exact hq
+      have hs' : Sorted (ps.take m) := sorted_sublist (List.take_sublist _ _) hs
+      have := search_of_getElem hs' hq' hd
+      unfold putProvList
+      rw [this]
+      simp [List.take_set]
+    · have hge : m ≤ lowerBound p.dist ps := by omega
+      have hlb := lowerBound_take_ge hge
+      unfold putProvList search
+      simp only [hlb]
+      have hnone : (ps.take m)[m]? = none := by simp; omega
+      rw [hnone]
+      simp only [if_true]
+      rw [take_set_ge (by omega)]
+  | error i =>
+    obtain ⟨hi, hne⟩ := search_error hsr
+    subst hi
+    simp only
+    by_cases him : lowerBound p.dist ps < m
+    · have hlb := lowerBound_take_lt him
+      have hsr' : search p.dist (ps.take m) = .error (lowerBound p.dist ps) := by
+        unfold search
+        simp only [hlb, getElem?_take_lt him]
+        unfold search at hsr
+        simp only at hsr
+        split at hsr
+        · rename_i q hq
+          split at hsr
+          · cases hsr
+          · rename_i hd; simp [hq, hd]
+        · rename_i hq; simp [hq]
+      unfold putProvList
+      rw [hsr']
+      have hne' : ¬ lowerBound p.dist ps = m := by omega
+      simp only [hne', if_false]
+      rw [take_insertIdx_lt him hle]
+      split
+      · rename_i hl
+        have : (ps.take m).dropLast = ps.take (m - 1) := by
+          rw [List.dropLast_eq_take, List.take_take]
+          congr 1
+          simp at hl ⊢; omega
+        rw [this]
+      · rename_i hl
+        have hlen : ps.length < m := by
+          simp at hl; omega
+        rw [List.take_of_length_le (by omega), List.take_of_length_le (by omega)]
+    · have hge : m ≤ lowerBound p.dist ps := by omega
+      have hlb := lowerBound_take_ge hge
+      unfold putProvList search
+      simp only [hlb]
+      have hnone : (ps.take m)[m]? = none := by simp; omega
+      rw [hnone]
+      simp only [if_true]
+      rw [take_insertIdx_ge hge hle]
+
+theorem insProv_sorted {ps : List Prov} {p : Prov} (hs : Sorted ps) : Sorted (insProv ps p) := by
+  unfold insProv
+  cases hsr : search p.dist ps with
+  | ok i =>
+    obtain ⟨q, hq, hd, _⟩ := search_ok hsr
+    exact sorted_set hs hq hd
+  | error i =>
+    obtain ⟨hi, hne⟩ := search_error hsr
+    subst hi
+    exact sorted_insert rfl hs hne
+
+/-- All announcements for one key, bounded store vs. unbounded reference. -/
+theorem foldl_putProvList_take (m : Nat) (anns : List Prov) :
+    ∀ (ps : List Prov), Sorted ps →
+      anns.foldl (fun l p => (putProvList m l p).1) (ps.take m) =
+        (anns.foldl insProv ps).take m := by
+  induction anns with
+  | nil => intro ps _; rfl
+  | cons a as ih =>
+    intro ps hs
+    simp only [List.foldl_cons]
+    rw [putProvList_take m ps a hs]
+    exact ih _ (insProv_sorted hs)
+
+
+theorem insProv_dists {ps : List Prov} {p : Prov} (d : Nat) :
+    d ∈ (insProv ps p).map (·.dist) ↔ d = p.dist ∨ d ∈ ps.map (·.dist) := by
+  unfold insProv
+  cases hsr : search p.dist ps with
+  | ok i =>
+    obtain ⟨q, hq, hd, _⟩ := search_ok hsr
+    simp only
+    have hmap : (ps.set i p).map (·.dist) = ps.map (·.dist) := by
+      rw [List.map_set]
+      apply List.ext_getElem? 
+      intro j
+      by_cases hj : j = i
+      · subst hj
+        have hlt : j < ps.length := by
+          rcases Nat.lt_or_ge j ps.length with h | h
+          · exact h
+          · rw [List.getElem?_eq_none h] at hq; cases hq
+        have hq2 : ps[j] = q := by
+          have := List.getElem?_eq_getElem hlt
+          rw [this] at hq; injection hq
+        simp [hlt, hq2, hd]
+      · simp [List.getElem?_set, Ne.symm hj]
+    rw [hmap]
+    constructor
+    · intro h; exact Or.inr h
+    · rintro (h | h)
+      · subst h
+        exact List.mem_map.2 ⟨q, List.mem_of_getElem? hq, hd⟩
+      · exact h
+  | error i =>
+    obtain ⟨hi, _⟩ := search_error hsr
+    subst hi
+    simp only [List.mem_map]
+    constructor
+    · rintro ⟨q, hq, rfl⟩
+      rcases (List.mem_insertIdx (lowerBound_le _ _)).1 hq with h | h
+      · subst h; exact Or.inl rfl
+      · exact Or.inr ⟨q, h, rfl⟩
+    · rintro (h | ⟨q, hq, rfl⟩)
+      · exact ⟨p, (List.mem_insertIdx (lowerBound_le _ _)).2 (Or.inl rfl), h.symm⟩
+      · exact ⟨q, (List.mem_insertIdx (lowerBound_le _ _)).2 (Or.inr hq), rfl⟩
+
+theorem foldl_insProv_sorted (anns : List Prov) : ∀ {ps : List Prov}, Sorted ps → Sorted (anns.foldl insProv ps) := by
+  induction anns with
+  | nil => intro ps h; exact h
+  | cons a as ih => intro ps h; exact ih (insProv_sorted h)
+
+theorem foldl_insProv_dists (anns : List Prov) : ∀ (ps : List Prov) (d : Nat),
+    d ∈ (anns.foldl insProv ps).map (·.dist) ↔ d ∈ anns.map (·.dist) ∨ d ∈ ps.map (·.dist) := by
+  induction anns with
+  | nil => intro ps d; simp
+  | cons a as ih =>
+    intro ps d
+    simp only [List.foldl_cons, List.map_cons, List.mem_cons]
+    rw [ih, insProv_dists]
+    constructor
+    · rintro (h | h | h)
+      · exact Or.inl (Or.inr h)
+      · exact Or.inl (Or.inl h)
+      · exact Or.inr h
+    · rintro ((h | h) | h)
+      · exact Or.inr (Or.inl h)
+      · exact Or.inl h
+      · exact Or.inr (Or.inr h)
+
 end Litep2pVerif.Kad.Store
